@@ -78,8 +78,14 @@ def c01(tier, seed):
     plan = [('UO3', 2, dict(ncfg=40 if tier == 'quick' else None, k1_ops=overlay.HIST_OPS + overlay.OBS_OPS, k2=6 if tier == 'quick' else 40, recreate=1, tag='C01'))]
     if tier != 'quick':
         plan.append(('UO3', 3, dict(ncfg=200, k1_ops=overlay.HIST_OPS, k2=6, tag='C01')))
+    from . import transfer
+    # copy/move with a source of the right type are calls of the contract too (parent of the destination a directory, ...)
+    tc = transfer.transfer_cases(['same_mem', 'same_alt'] if tier == 'quick' else ['same_mem', 'same_alt', 'two_mem', 'same_ovl', 'same_altalt'], ['C01'], tier, seed)
+    if tier == 'quick':
+        tc = tc[::2]
     return run_onestep('C01', tier, seed, ['mem', 'alt:/a'], ['mem', 'alt:/a', 'alt:/a/b', 'alt:', 'altalt'],
-                       onestep.PRIMS + onestep.OBSERVERS + onestep.COMPOSITES, overlay_plan=plan)
+                       onestep.PRIMS + onestep.OBSERVERS + onestep.COMPOSITES, overlay_plan=plan,
+                       more=[(transfer.run_transfer_case, tc, 'copy/move transfers (source of the right type) against the contract')])
 
 
 @prop('C03')
@@ -167,7 +173,7 @@ def c06(tier, seed):
                 cases.append({'la': la, 'lb': lb})
     cases.sort(key=lambda c: -(c['la'] * 10 + c['lb']))
     ck.bounds = {'arg_len': '0..%d bytes' % la_max, 'base_len': '0..%d bytes (canonical by assumption; results asserted canonical)' % lb_max,
-                 'alphabet': "'/', '.', 'a', 'b', U+00E9 (C3 A9); every byte a solver variable"}
+                 'alphabet': "'/', '.', 'a', 'b', backslash, U+00E9 (C3 A9); every byte a solver variable"}
     ck.add(run_cases(prog, mod.run_case, cases), 'join/parent/filename/extension/root/is_root/== on symbolic base and argument strings')
     ck.assumptions = COMMON_ASSUMPTIONS[:2] + ['base paths are canonical (inductive: every Ok result of join is asserted canonical)',
                                                 'characters other than / and . are represented by a, b and one two-byte character']
@@ -178,7 +184,7 @@ def c06(tier, seed):
 # ------------------------------------------------------------------------------------------ overlay
 
 def ovl_cases(universe, nlayers, props_, seed, ncfg=None, k1_ops=None, k2=0, k3=0, removal_first=False, max_nodes=None, layer_kind='mem', k2_first=None, recreate=0, then_parent=False, tag='C09',
-              transfers=0):
+              transfers=0, lower_markers=False):
     """cases for overlay.run_history_case: per layer configuration a list of histories"""
     from . import overlay
     u = UNIVERSES[universe]()
@@ -252,7 +258,8 @@ def ovl_cases(universe, nlayers, props_, seed, ncfg=None, k1_ops=None, k2=0, k3=
         fonly = {n.var for n in u.nodes if tuple(n.kinds) == ('f',)}
         if fonly:
             hs = [h_ for h_ in hs if not any(st_[0] in ('create_dir', 'create_dir_all') and st_[1] in fonly for st_ in h_)]
-        cases.append({'universe': universe, 'nlayers': nlayers, 'cfg': cfg, 'histories': hs, 'props': props_, 'layer_kind': layer_kind, 'tag': tag})
+        cases.append({'universe': universe, 'nlayers': nlayers, 'cfg': cfg, 'histories': hs, 'props': props_, 'layer_kind': layer_kind, 'tag': tag,
+                      'lower_markers': lower_markers})
     return cases
 
 
@@ -295,7 +302,8 @@ def c09(tier, seed):
         plan = [('UO3', 2, dict(k1_ops=overlay.HIST_OPS + overlay.OBS_OPS, k2=12, recreate=1)),
                 ('UO3', 3, dict(ncfg=60, k1_ops=overlay.HIST_OPS + ['read_dir'], recreate=1)),
                 ('UO3', 2, dict(ncfg=40, k1_ops=overlay.HIST_OPS + ['read_dir'], recreate=1, layer_kind='memsub')),
-                ('USYM', 2, dict(ncfg=30, k1_ops=overlay.HIST_OPS + overlay.OBS_OPS, k2=4))]
+                ('USYM', 2, dict(ncfg=30, k1_ops=overlay.HIST_OPS + overlay.OBS_OPS, k2=4)),
+                ('UO4', 2, dict(ncfg=50, k1_ops=['write', 'create_dir', 'append', 'create_dir_all', 'remove_dir']))]
     else:
         plan = [('UO3', 2, dict(k1_ops=overlay.HIST_OPS + overlay.OBS_OPS, k2=150, k3=40, recreate=2)),
                 ('UO3', 2, dict(k1_ops=overlay.HIST_OPS + overlay.OBS_OPS, k2=20, recreate=1, layer_kind='memsub')),
@@ -342,6 +350,8 @@ def c08(tier, seed):
                 ('USYM', 2, dict(ncfg=30, k1_ops=overlay.HIST_OPS + overlay.TIME_OPS, k2=3)),
                 ('UOT', 2, dict(ncfg=60, transfers=1)),
                 ('UOT', 3, dict(ncfg=30, transfers=1)),
+                ('UO3', 2, dict(ncfg=40, k1_ops=overlay.HIST_OPS, layer_kind='memsub')),
+                ('UO3', 2, dict(ncfg=30, k1_ops=['write', 'create_dir', 'create_dir_all', 'append', 'remove_file', 'read_dir'], lower_markers=True)),
                 ('UO3', 2, dict(ncfg=40, k1_ops=['append', 'write', 'remove_file', 'create_dir_all'], k2_first=['append'], layer_kind='physshared'))]
     else:
         plan = [('UO3', 2, dict(k1_ops=overlay.HIST_OPS + overlay.OBS_OPS + overlay.TIME_OPS, k2=80, k3=20)),
@@ -351,6 +361,9 @@ def c08(tier, seed):
                 ('USYM', 2, dict(k1_ops=overlay.HIST_OPS + overlay.TIME_OPS, k2=30)),
                 ('UOT', 2, dict(transfers=2)),
                 ('UOT', 3, dict(ncfg=300, transfers=2)),
+                ('UO3', 2, dict(k1_ops=overlay.HIST_OPS, k2=10, layer_kind='memsub')),
+                ('UO3', 2, dict(k1_ops=overlay.HIST_OPS + ['read_dir'], k2=10, lower_markers=True)),
+                ('UO3', 3, dict(ncfg=200, k1_ops=overlay.HIST_OPS, lower_markers=True)),
                 ('UO3', 2, dict(k1_ops=overlay.HIST_OPS + overlay.TIME_OPS, k2=10, k2_first=['append', 'write'], layer_kind='physshared'))]
     return run_overlay('C08', tier, seed, plan)
 
@@ -378,7 +391,7 @@ def reader_cases(tier, prop_, release=False):
 
 def writer_cases(tier, prop_, phys=False, phys_create_only=False):
     cases = []
-    cfgs = ['mem', 'alt', 'ovl_lower', 'ovl_upper'] + (['phys'] if phys else [])
+    cfgs = ['mem', 'alt', 'ovl_lower', 'ovl_upper'] + (['phys'] if phys else []) + (['ovl3'] if prop_ == 'C04' else [])
     k = 2 if tier == 'quick' else 3
     for cfg in cfgs:
         seqs = [('create',), ('append',), ('create', 'append'), ('append', 'append')]
@@ -396,6 +409,11 @@ def writer_cases(tier, prop_, phys=False, phys_create_only=False):
         if not (cfg == 'phys' and phys_create_only):
             cases.append({'cfg': cfg, 'k': 1, 'sessions': 1, 'modes': ('append',), 'prop': prop_, 'pre': None})
         cases.append({'cfg': cfg, 'k': k, 'sessions': 1, 'modes': ('create',), 'prop': prop_, 'pre': None})
+    if prop_ == 'C04':
+        # no session at all (the file only exists in a lower layer), then the aliasing copy onto the upper layer's own path
+        for cfg in ('ovl_lower', 'ovl3'):
+            cases.append({'cfg': cfg, 'k': 0, 'sessions': 0, 'modes': (), 'prop': prop_, 'pre': 2, 'alias_copy': True})
+            cases.append({'cfg': cfg, 'k': 1, 'sessions': 1, 'modes': ('append',), 'prop': prop_, 'pre': 2, 'alias_copy': True})
     # split the heavy script spaces (by the first step and by the final transfer) so that the pool is balanced
     out = []
     for c in cases:
@@ -447,7 +465,7 @@ def c04(tier, seed):
 
 @prop('C05')
 def c05(tier, seed):
-    from . import overlay
+    from . import overlay, handles
     plan = [('UO3', 2, dict(ncfg=50 if tier == 'quick' else None, k1_ops=overlay.HIST_OPS, k2=3 if tier == 'quick' else 30, recreate=1)),
             ('UOW', 2, dict(ncfg=30 if tier == 'quick' else 300, k1_ops=['remove_file', 'remove_dir_all', 'write'], k2=2 if tier == 'quick' else 10)),
             ('USYM', 2, dict(ncfg=20 if tier == 'quick' else None, k1_ops=overlay.HIST_OPS, k2=2 if tier == 'quick' else 20))]
@@ -459,7 +477,9 @@ def c05(tier, seed):
         tc = tc[::2]
     return run_onestep('C05', tier, seed, ['mem', 'alt:/a'], ['mem', 'alt:/a', 'alt:/a/b', 'altalt'], onestep.PRIMS + onestep.COMPOSITES + ['exists'],
                        perm=True, overlay_plan=plan,
-                       more=[(transfer.run_transfer_case, tc, 'observer consistency after copy/move transfers')])
+                       more=[(transfer.run_transfer_case, tc, 'observer consistency after copy/move transfers'),
+                             (handles.run_lifecycle_case, [{'cfg': c, 'props': ['C05', 'C13']} for c in ('mem', 'alt', 'ovl_upper', 'ovl_lower')],
+                              'observer consistency about a path whose old handle is flushed/dropped after the path was removed')])
 
 
 @prop('C12')
@@ -535,7 +555,7 @@ def c07(tier, seed):
         for sh in shs[:: (6 if tier == 'quick' else 1)]:
             cases.append({'universe': u.tag, 'P': P, 'shape': sh, 'ops': ['write', 'append', 'remove_file', 'remove_dir', 'remove_dir_all', 'create_dir', 'create_dir_all', 'read'], 'hostile': True})
     ck.add(run_cases(prog, altroot.run_confine_case, cases), 'exactness and confinement: every op on every path (and through hostile join strings) from every well-formed state')
-    ck.bounds = {'kernel': '|P| <= %d, |q| <= %d bytes, alphabet {/ . a b U+00E9}' % (lp_max, lq_max), 'altroot_dirs': Ps, 'universe': u.tag,
+    ck.bounds = {'kernel': '|P| <= %d, |q| <= %d bytes, alphabet {/ . a b backslash U+00E9}' % (lp_max, lq_max), 'altroot_dirs': Ps, 'universe': u.tag,
                  'hostile_join_strings': altroot.HOSTILE, 'physical': 'PhysicalFS::get_path on |q| <= %d bytes over the OS model (symlinks aside); operations of PhysicalFS on the real kernel are not encoded' % (6 if tier == 'quick' else 8)}
     ck.assumptions = COMMON_ASSUMPTIONS + ['the path API only hands canonical paths to a backend (checked by C06); calling the FileSystem trait of an altroot directly with a non-canonical string is outside']
     ck.rule = 'a state = (P, well-formed tree in the altroot view, entries beside and above P); transitions = call paths; kernel: (|P|,|q|) classes with symbolic bytes'
